@@ -1,9 +1,11 @@
 // C15 (reply parser, engine I): exhaustive datagram sweeps through the real DnsRequest::onUdpRecv.
 // usage: parser_harness struct <shard> <nshards> [pairs]      structured sweeps over 4 base replies
 //        parser_harness tail   <shard> <nshards> <maxlen>     matching id + every byte string of length <= maxlen
+//        parser_harness tail3s <shard> <nshards>              matching id + 2 flag bytes + one byte of {00,01,3f,40,c0,ff}
 //        parser_harness one <hex>                             replay one datagram (id bytes are overwritten)
 // A real lookup is outstanding (id 0xA5A5, one configured server); each datagram is delivered twice, once after
-// painting the dead stack below the call with 0x00 and once with 0xA5, on equal object states.
+// painting the dead stack below the call with 0x00 and once with 0xA5 (0x01 in the tail sweep once id and flags are
+// present, see worker_thread), on equal object states. Shards are picked by a hash of the case index.
 // The sweep runs in a worker child on a 256 KiB thread stack; a worker that dies identifies the datagram it
 // was evaluating (shared-memory cursor) and the sweep resumes behind it in a new worker.
 #include "common.h"
@@ -14,8 +16,6 @@
 #include <sys/wait.h>
 #include <time.h>
 #include <ucontext.h>
-#include <functional>
-#include <map>
 
 #if defined(__SANITIZE_ADDRESS__)
 #define BUILD_TAG_ "asan"
@@ -45,7 +45,7 @@ struct OutEnt { char txt[112]; uint64_t n; };
 struct Shm {
   volatile uint64_t cur;            // index of the case being evaluated
   volatile uint64_t done;           // cases completely evaluated
-  volatile int phase;               // 1 = paint 0x00 run, 2 = paint 0xA5 run, 3 = oracle
+  volatile int phase;               // 1 = paint 0x00 run, 2 = second-paint run, 3 = oracle
   volatile int death;               // set by the worker's SIGSEGV handler: 1 stack exhausted, 2 other SIGSEGV
   volatile int capped, finished;
   uint64_t execs, callbacks, ignored, reused, rebuilt, viols, samples, paint_diff, strict_exact, strict_differs;
@@ -325,6 +325,5 @@ int main(int argc, char **argv) {
   printf("@STAT states=%lu %s=%lu transitions=%lu executions=%lu violations=%lu callbacks=%lu ignored=%lu paint_dependent=%lu worker_deaths=%lu workers=%d world_reused=%lu world_rebuilt=%lu strict_exact=%lu strict_lenient=%lu\n",
          (unsigned long)(plain ? shm->done : 0), plain ? "datagrams_plain" : RUNNING_ON_VALGRIND ? "datagrams_valgrind" : "datagrams_asan", (unsigned long)shm->done, (unsigned long)shm->execs, (unsigned long)shm->execs, (unsigned long)shm->viols, (unsigned long)shm->callbacks, (unsigned long)shm->ignored,
          (unsigned long)shm->paint_diff, (unsigned long)crashes, spawned, (unsigned long)shm->reused, (unsigned long)shm->rebuilt, (unsigned long)shm->strict_exact, (unsigned long)shm->strict_differs);
-  if (mode == "one") { /* print the observation for a human */ }
   return 0;
 }
